@@ -2491,7 +2491,7 @@ impl ZlibDecoder {
                       "        // C07: bytes after the declared ones do not matter\n"
                       "        (!self.input.fails() && self.input.rest().len() >= limit) ==> r is Ok,")),
         dict(RDR, kind="fn", file="reader", name="read_bytes", key="AseReader::read_bytes", ret="r", rules=["R1", "R6", "R11"],
-             body_rewrites=[(r"re:self\.input\s*\.by_ref\(\)\s*\.take\(([^()]+)\)\s*\.read_to_end\(&mut (\w+)\)\?;", r"self.input.read_up_to(\1, &mut \2)?;"),
+             body_rewrites=[(r"re:self\s*\.input\s*\.by_ref\(\)\s*\.take\(([^()]+)\)\s*\.read_to_end\(&mut (\w+)\)\?;", r"self.input.read_up_to(\1, &mut \2)?;"),
                             ("std::io::Error::from(std::io::ErrorKind::UnexpectedEof).into()", "io_eof()")],
              ensures=("        // C13: exactly `count` bytes or an error (a short read is the I/O error UnexpectedEof); C14: the I/O error is returned\n"
                       "        r is Ok ==> r->Ok_0@.len() == count && old(self).input.rest().len() >= count && r->Ok_0@ =~= old(self).input.rest().subrange(0, count as int),\n"
